@@ -453,14 +453,16 @@ Definition qlt (a b : bigQ) : bool := match BigQ.compare a b with Lt => true | _
 (* atom whose slice contains global position j *)
 Definition atom_of (ind : list nat) (j : nat) : nat := length (filter (fun e => Nat.leb e j) (tl ind)).
 Definition pow2tab : list bigQ :=
-  [1%bigQ; BigQ.Qq 1%bigZ 2%bigN; BigQ.Qq 1%bigZ 4%bigN; BigQ.Qq 1%bigZ 8%bigN; BigQ.Qq 1%bigZ 16%bigN; BigQ.Qq 1%bigZ 32%bigN].
+  [2%bigQ; 1%bigQ; BigQ.Qq 1%bigZ 2%bigN; BigQ.Qq 1%bigZ 4%bigN; BigQ.Qq 1%bigZ 8%bigN; BigQ.Qq 1%bigZ 16%bigN].
 (* the two test callables; each uses points, atcoords, atnums and indices *)
 Definition aim_pow2 : @aimfun bigQ := fun pts atc atn ind =>
   map (fun jp : nat * list bigQ => let (j, p) := jp in
         let k := atom_of ind j in
         let e := (k mod 3 + (if qlt (nth 0 (nth k atc []) 0%bigQ) (nth 0 p 0%bigQ) then 1 else 0)
                   + 2 * Z.to_nat (Z.modulo (nth k atn 0%Z) 2))%nat in
-        nth e pow2tab 0%bigQ) (combine (seq 0 (length pts)) pts).
+        let v := nth e pow2tab 0%bigQ in
+        (* values outside [0, 1]: 2 is reached, and the sign follows the y coordinate *)
+        if qlt (nth 1 (nth k atc []) 0%bigQ) (nth 1 p 0%bigQ) then BigQ.opp v else v) (combine (seq 0 (length pts)) pts).
 Definition aim_dyadic : @aimfun bigQ := fun pts atc atn ind =>
   map (fun jp : nat * list bigQ => let (j, p) := jp in
         let k := atom_of ind j in
@@ -468,7 +470,7 @@ Definition aim_dyadic : @aimfun bigQ := fun pts atc atn ind =>
         let v := (1 + 2 * Z.of_nat k + nth k atn 0%Z
                   + (if qlt (nth 2 (nth k1 atc []) 0%bigQ) (nth 2 p 0%bigQ) then 4 else 0)
                   + Z.of_nat ((nth (S k) ind 0 - nth k ind 0)%nat))%Z in
-        BigQ.mul (BigQ.Qz (BigZ.of_Z v)) (BigQ.Qq 1%bigZ 32%bigN)) (combine (seq 0 (length pts)) pts).
+        BigQ.mul (BigQ.Qz (BigZ.of_Z (v - 12))) (BigQ.Qq 1%bigZ 8%bigN)) (combine (seq 0 (length pts)) pts).
 (* flattening of the fan-out calls to integer lists *)
 Definition enc_rad (r : rad_choice Z DPt) : list Z :=
   match r with UseGiven g => [0; g]%Z | UseDefault a (n1, d1, n2, d2, npt) => [1; a; n1; d1; n2; d2; npt]%Z end.
@@ -567,7 +569,7 @@ def aim_pow2_py(points, atcoords, atnums, indices):
     for j in range(len(points)):
         k = atom_of_py(indices, j)
         e = k % 3 + (1 if points[j][0] > atcoords[k][0] else 0) + 2 * (int(atnums[k]) % 2)
-        out[j] = 2.0 ** (-e)
+        out[j] = 2.0 ** (1 - e) * (-1.0 if points[j][1] > atcoords[k][1] else 1.0)  # values in [-2, 2], not only [0, 1]
     return out
 
 
@@ -578,7 +580,7 @@ def aim_dyadic_py(points, atcoords, atnums, indices):
         k = atom_of_py(indices, j)
         k1 = (k + 1) % n
         v = 1 + 2 * k + int(atnums[k]) + (4 if points[j][2] > atcoords[k1][2] else 0) + int(indices[k + 1] - indices[k])
-        out[j] = v / 32.0
+        out[j] = (v - 12) / 8.0  # negative values and values above 1 occur
     return out
 
 
@@ -627,10 +629,10 @@ def oracle_aim(aim, pts, cens, atnums, ind):
             k += 1
         if aim["type"] == "pow2":
             e = k % 3 + (1 if p[0] > cens[k][0] else 0) + 2 * (atnums[k] % 2)
-            out.append(Fraction(1, 2 ** e))
+            out.append(Fraction(2, 2 ** e) * (-1 if p[1] > cens[k][1] else 1))
         else:
             v = 1 + 2 * k + atnums[k] + (4 if p[2] > cens[(k + 1) % n][2] else 0) + (ind[k + 1] - ind[k])
-            out.append(Fraction(v, 32))
+            out.append(Fraction(v - 12, 8))
     return out
 
 
@@ -1879,7 +1881,7 @@ def run(ctx: Ctx):
         "(1) 1..5 atoms; atomic grids are real AtomGrid objects (power-of-two radial grids with 2-4 nodes, Lebedev degrees 3/5/7 or sizes 6/14, "
         "single degree or per-shell lists, rotate 0/5) and AtomGrid subclasses carrying 1-5 dyadic points/weights (negative and zero weights); aim weights: "
         "array (signed powers of two for real grids so that every float product is exact, k/16 for dyadic grids), two callables using all four "
-        "arguments, a wrong-size array, a non-array; store on/off; every observable (points, weights, atweights, aim_weights, atcoords, indices, "
+        "arguments whose values leave [0, 1] on both sides (negative, above 1), a wrong-size array, a non-array; store on/off; every observable (points, weights, atweights, aim_weights, atcoords, indices, "
         "get_atomic_grid(k) and [k] for every k, -1 and natoms, exact integrals on dyadic grids) is compared inside Coq with the model at bigQ and "
         "in Python with an exact-Fraction oracle.  (2) from_size/from_preset/from_pruned with OneDGrid/list/dict/None radial grids, str/list/dict "
         "presets, d_sectors vs s_sectors, scalar/list/array radius, rotate in {default, 0, False, 1, 37, random}, store in {default, False, True}, "
